@@ -1,5 +1,5 @@
 import SqlVerif.Lemmas.DataTypeRoundtrip
-import SqlVerif.Model.Tokenizer
+import SqlVerif.Lemmas.EscapeLemmas
 /-!
 # C18 — every data type prints to SQL that parses back
 
@@ -12,7 +12,7 @@ of three or more where `>` is an operator character, i.e. PostgreSQL), `parseHel
 `dtparse` and `dtprint`.
 
 All theorems hold for EVERY configuration `c : Cfg` (the 13 dialects are instances), every
-environment `env` (keyword class of unquoted identifiers, lexing of raw custom-type modifiers),
+environment `env` (keyword class of unquoted identifiers, lexing of the custom-type modifier texts),
 both values of `gtOp` (`is_custom_operator_part('>')`, true for PostgreSQL), every fuel / recursion
 depth above an explicit bound in the type, and unbounded nesting depth.
 
@@ -26,16 +26,26 @@ depth above an explicit bound in the type, and unbounded nesting depth.
                        nesting depth (fuel ≥ `size t`, depth ≥ `ndepth t`);
 * `dt_roundtrip_alone / _before_rparen / _before_comma`  the three contexts of the property;
 * `dt_yield`           on a printed type the parser consumes exactly the printed tokens;
+* custom-type modifiers (since the fix 085e5ea a string-literal modifier is stored in its SQL
+  spelling, quotes included, like a quoted word): `string_modifier_stored_as_spelling` (what the
+  parser stores), `custom_string_modifier_roundtrips` (`foo('a b')` comes back, for every payload
+  whose spelling lexes to one string token of the same spelling, the doubled-quote quirk of the
+  quote-doubling printer included), `string_modifier_spelling_lexes_back_partial` and
+  `custom_string_modifier_roundtrips_lexer_partial` (that lexing condition discharged through the
+  tokenizer model of C09 for every payload satisfying C06's `CleanQ`, any dialect row);
 * negations with concrete witnesses for each way the round trip fails on the current code
   (`square_after_even_closers_differs`, `struct_then_comma_rejected`,
-  `three_closers_rejected_where_gt_is_operator`, `custom_modifier_splits`,
-  `custom_empty_modifier_vanishes`, `datetime64_zone_quote_breaks`), and `fullStatement_false`.
+  `three_closers_rejected_where_gt_is_operator`, `custom_string_modifier_backslash_quote_breaks`,
+  `datetime64_zone_quote_breaks`), for values the parser never returns
+  (`handbuilt_modifier_splits`, `handbuilt_empty_modifier_vanishes`), and `fullStatement_false`.
 
 `Producible` is the decidable description of what the parser returns and prints token by token:
 which constructor exists under which dialect (`Array(None)` only Snowflake, `Array(Parenthesis)`
 only ClickHouse, `STRUCT(…)` only DuckDB, `Unspecified` never, …), numbers within `u64`, label
 lists non-empty, a custom name that is not a type keyword of the dialect, modifiers that lex to one
-word/number token, unnamed struct/tuple fields whose type does not start with two words, and the
+word, number or single-quoted-string token which the parser stores back as the modifier itself (a
+word's `Display`, a number's text, the SQL spelling of a string literal: `modOK`), unnamed
+struct/tuple fields whose type does not start with two words, and the
 three exclusions that are DEFECTS of the code (witnessed below): a `[]` suffix after an even number
 of closing angle brackets (`prod`), an angle-bracket struct closed by the second half of `>>` in
 front of a comma (`prod` for inner positions, `FollowOK` for the follower), and three or more
@@ -242,34 +252,81 @@ example : parseDT generic 10 50 (printDT generic env0 false (.arrayAngle (.array
     .ok (.arrayAngle (.arrayAngle (.arrayAngle INT)), []) :=
   dt_roundtrip_alone generic env0 false _ 10 50 (by decide) (by decide) (by decide)
 
-/-- DEFECT 4: custom-type modifiers are printed raw.  A modifier that came from a quoted string
-(`foo('a b')`) prints as `foo(a b)` and comes back as TWO modifiers — in the generic dialect and
-every environment in which the text `a b` lexes to the two words. -/
-theorem custom_modifier_splits (env : Env) (gtOp : Bool)
-    (h : env.lexMod [97, 32, 98] = [.word [97] none .noKw, .word [98] none .noKw])
-    (hk : env.kwOf [102, 111, 111] = .noKw) :
-    parseDT generic 10 50 (printDT generic env gtOp (.custom [⟨[102, 111, 111], none⟩] [[97, 32, 98]])) =
-      .ok (.custom [⟨[102, 111, 111], none⟩] [[97], [98]], []) := by
-  simp only [printDT, pre, retok]
-  simp [h, hk, nameToks, intersperse, identTok, List.isEmpty, retokGo, run, LParen, RParen, Comma, GtT, ShrT, parseDT,
-    parseDataType, parseHelper, headOf, parseLeaf, simpleOfKw, lenOfKw, intOfKw, numOfKw, parseCustom, objName,
-    parseIdent, bqSplit, generic, consumeSym, Tok.isSym, modLoop, SqlVerif.Pratt.wordDisplay, suffixLoop, bind,
+-- ------------------------------------------------------------------ custom-type modifiers
+def foo : List Ident := [⟨str "foo", none⟩]
+
+/-- what the parser stores for `foo('…')`, any payload `s`: the SQL spelling of the literal, quotes
+included and embedded quotes doubled (`Value::SingleQuotedString(s).to_string()`), as it stores a
+quoted word with its quotes -/
+theorem string_modifier_stored_as_spelling (s : W) :
+    parseDT generic 10 50 [.word (str "foo") none .noKw, LParen, .sqs s, RParen] =
+      .ok (.custom foo [sqSpell s], []) := by
+  simp [LParen, RParen, parseDT, foo, parseDataType, parseHelper, headOf, parseLeaf, simpleOfKw, lenOfKw, intOfKw,
+    numOfKw, parseCustom, objName, parseIdent, bqSplit, generic, consumeSym, Tok.isSym, modLoop, suffixLoop, bind,
     Except.bind, pure, Except.pure]
 
-/-- DEFECT 4': the empty modifier (`foo('')`) prints as `foo()` and vanishes. -/
-theorem custom_empty_modifier_vanishes (env : Env) (gtOp : Bool) (h : env.lexMod [] = [])
-    (hk : env.kwOf [102, 111, 111] = .noKw) :
-    parseDT generic 10 50 (printDT generic env gtOp (.custom [⟨[102, 111, 111], none⟩] [[]])) =
-      .ok (.custom [⟨[102, 111, 111], none⟩] [], []) := by
-  simp only [printDT, pre, retok]
-  simp [h, hk, nameToks, intersperse, identTok, List.isEmpty, retokGo, run, LParen, RParen, Comma, GtT, ShrT, parseDT,
-    parseDataType, parseHelper, headOf, parseLeaf, simpleOfKw, lenOfKw, intOfKw, numOfKw, parseCustom, objName,
-    parseIdent, bqSplit, generic, consumeSym, Tok.isSym, modLoop, suffixLoop, bind,
-    Except.bind, pure, Except.pure]
+/-- `sqSpell` IS `Display for Value::SingleQuotedString` of `Model/Escape` (C06's printer) -/
+theorem sqSpell_eq_showValue (s : W) : sqSpell s = SqlVerif.Escape.showValue .singleQuoted s := rfl
 
--- the DateTime64 zone is printed between quotes WITHOUT escaping (data_type.rs 616-631)
-/-- `format_clickhouse_datetime_precision_and_timezone`: `'{time_zone}'` -/
-def zoneText (z : W) : W := [39] ++ z ++ [39]
+example : sqSpell (str "a b") = str "'a b'" ∧ sqSpell [] = str "''" ∧ sqSpell (str "it's") = str "'it''s'" := by
+  decide
+
+/-- A STRING MODIFIER ROUND-TRIPS (the fix 085e5ea).  Every dialect configuration, every name the
+dialect reads as a custom type, every payload `s` whose spelling `'…'` lexes to ONE string token
+whose payload `s'` is spelled the same (`s' = s` for the payloads of `CleanQ`; `s' ≠ s` exactly in
+the doubled-quote quirk of the quote-doubling printer, see the example below): the value is
+producible, it prints as `name ( '…' )`, and parsing the print gives it back in front of every
+follower that cannot extend a type. -/
+theorem custom_string_modifier_roundtrips (c : Cfg) (env : Env) (gtOp : Bool) (name : List Ident) (s s' : W)
+    (rest : List Tok) (fuel depth : Nat) (hn : nameOK c env name = true)
+    (hl : env.lexMod (sqSpell s) = [.sqs s']) (hs : sqSpell s' = sqSpell s)
+    (hfollow : followTok rest.head? = true) (hf : 2 ≤ fuel) (hd : 1 ≤ depth) :
+    Producible c env gtOp (.custom name [sqSpell s]) ∧
+    printDT c env gtOp (.custom name [sqSpell s]) = nameToks c env name ++ [LParen, .sqs s', RParen] ∧
+    parseDT c fuel depth (printDT c env gtOp (.custom name [sqSpell s]) ++ rest) =
+      .ok (.custom name [sqSpell s], rest) := by
+  have hm : [sqSpell s].all (modOK env) = true := by simp [modOK, hl, hs]
+  have hp : Producible c env gtOp (.custom name [sqSpell s]) := producible_custom c env gtOp name _ hn hm
+  refine ⟨hp, ?_, ?_⟩
+  · have h0 := retok_append_noGt gtOp _ [] (noGt_custom c env name [sqSpell s] hm)
+    rw [List.append_nil, retok_nil, List.append_nil] at h0
+    rw [printDT, h0]
+    simp [pre, intersperse, hl]
+  · exact dt_roundtrip c env gtOp _ rest fuel depth hp ⟨hfollow, by simp [structEven]⟩ (by simpa [size] using hf)
+      (by simpa [ndepth] using hd)
+
+/-- the modifier text lexed by the tokenizer model of C09 (`Model/Tokenizer`), when it is exactly one
+string literal -/
+def lexModOf (tenv : SqlVerif.Tok.Env) (m : W) : List Tok :=
+  match SqlVerif.Tok.nextToken tenv m with
+  | .ok (some (.singleQuotedString p, [])) => [.sqs p]
+  | _ => []
+
+/-- the lexing hypothesis of `custom_string_modifier_roundtrips` holds in the tokenizer model for
+every dialect row and every payload satisfying C06's `CleanQ` (no two adjacent quotes, no backslash
+before a quote, no backslash at all where backslash escapes; with triple-quoted strings no leading
+quote): the spelling lexes back to exactly the one string token of the payload -/
+theorem string_modifier_spelling_lexes_back_partial (tenv : SqlVerif.Tok.Env) (hun : tenv.unescape = true) (p : W)
+    (hc : SqlVerif.Escape.CleanQ 39 tenv.row.flags.supports_string_literal_backslash_escape p)
+    (ht : tenv.row.flags.supports_triple_quoted_string = true → p.head? ≠ some 39) :
+    lexModOf tenv (sqSpell p) = [.sqs p] := by
+  have h := SqlVerif.Escape.single_quoted_token tenv hun p [] (by simp) hc ht
+  rw [List.append_nil] at h
+  simp [lexModOf, sqSpell, h]
+
+/-- … hence the round trip for every such payload, whenever the environment lexes the modifier the
+way the tokenizer model does -/
+theorem custom_string_modifier_roundtrips_lexer_partial (c : Cfg) (env : Env) (gtOp : Bool) (name : List Ident)
+    (tenv : SqlVerif.Tok.Env) (p : W) (rest : List Tok) (fuel depth : Nat) (hn : nameOK c env name = true)
+    (hun : tenv.unescape = true)
+    (hc : SqlVerif.Escape.CleanQ 39 tenv.row.flags.supports_string_literal_backslash_escape p)
+    (ht : tenv.row.flags.supports_triple_quoted_string = true → p.head? ≠ some 39)
+    (henv : env.lexMod (sqSpell p) = lexModOf tenv (sqSpell p))
+    (hfollow : followTok rest.head? = true) (hf : 2 ≤ fuel) (hd : 1 ≤ depth) :
+    parseDT c fuel depth (printDT c env gtOp (.custom name [sqSpell p]) ++ rest) =
+      .ok (.custom name [sqSpell p], rest) :=
+  (custom_string_modifier_roundtrips c env gtOp name p p rest fuel depth hn
+    (by rw [henv, string_modifier_spelling_lexes_back_partial tenv hun p hc ht]) rfl hfollow hf hd).2.2
 
 /-- the generic dialect with Rust's character predicates on ASCII -/
 def lexEnv : SqlVerif.Tok.Env :=
@@ -281,6 +338,93 @@ def lexEnv : SqlVerif.Tok.Env :=
     toUpper := fun c => [SqlVerif.Gen.asciiToUpper.getD c c],
     isIdentStart := bit row.asciiIdentStart, isIdentPart := bit row.asciiIdentPart,
     isDelimStart := bit row.asciiDelimStart, isCustomOpPart := bit row.asciiCustomOp }
+
+/-- modifiers lexed by the tokenizer model of the generic dialect -/
+def envLex : Env := { kwOf := fun _ => .noKw, lexMod := lexModOf lexEnv }
+
+/-- `foo('a b')`: stored as `'a b'`, printed `foo('a b')`, parsed back (before the fix it printed
+`foo(a b)` and came back with the two modifiers `a`, `b`) -/
+example : parseDT generic 10 50 (printDT generic envLex false (.custom foo [str "'a b'"]) ++ [Comma]) =
+    .ok (.custom foo [str "'a b'"], [Comma]) :=
+  custom_string_modifier_roundtrips_lexer_partial generic envLex false foo lexEnv (str "a b") [Comma] 10 50
+    (by decide) rfl (by decide) (by decide) rfl (by decide) (by decide) (by decide)
+
+/-- `foo('')`: the empty string keeps its modifier (before the fix it printed `foo()`) -/
+example : parseDT generic 10 50 (printDT generic envLex false (.custom foo [str "''"])) =
+    .ok (.custom foo [str "''"], []) := by
+  have := custom_string_modifier_roundtrips_lexer_partial generic envLex false foo lexEnv [] [] 10 50
+    (by decide) rfl (by decide) (by decide) rfl (by decide) (by decide) (by decide)
+  rw [List.append_nil] at this
+  exact this
+
+/-- the doubled-quote quirk of the quote-doubling printer (C06 `doubled_quote_collapses`) is NOT a
+defect here: `foo('a''''b')` has the payload `a''b`, which is spelled `'a''b'` (the pair is taken for
+an escaped quote); that text lexes to the payload `a'b`, whose spelling is `'a''b'` again: the stored
+modifier is the same text and the value comes back. -/
+example : sqSpell (str "a''b") = str "'a''b'" ∧ lexModOf lexEnv (str "'a''b'") = [.sqs (str "a'b")] ∧
+    parseDT generic 10 50 (printDT generic envLex false (.custom foo [sqSpell (str "a''b")])) =
+      .ok (.custom foo [sqSpell (str "a''b")], []) := by
+  have hl : lexModOf lexEnv (str "'a''b'") = [.sqs (str "a'b")] := by decide +kernel
+  refine ⟨by decide, hl, ?_⟩
+  have := (custom_string_modifier_roundtrips generic envLex false foo (str "a''b") (str "a'b") [] 10 50
+    (by decide) hl (by decide) (by decide) (by decide) (by decide)).2.2
+  rw [List.append_nil] at this
+  exact this
+
+/-- RESIDUAL DEFECT 4 (a value the parser returns): a payload with a backslash in front of a quote.
+`foo('a\''b')` in a dialect without backslash escapes has the payload `a\'b`; the quote-doubling
+printer writes a quote that follows a backslash ONCE (C06 `backslash_quote_unbalanced`), so the
+parser stores `'a\'b'`; printed verbatim, the lexer reads the string `a\` and is left with `b')`,
+whose quote never closes: the printed type does not even lex. -/
+theorem custom_string_modifier_backslash_quote_breaks :
+    parseDT generic 10 50 [.word (str "foo") none .noKw, LParen, .sqs (str "a\\'b"), RParen] =
+      .ok (.custom foo [str "'a\\'b'"], []) ∧
+    (SqlVerif.Tok.nextToken lexEnv (str "'a\\'b'" ++ [41])).toOption =
+      some (some (.singleQuotedString (str "a\\"), str "b')")) ∧
+    (SqlVerif.Tok.nextToken lexEnv (str "')")).toOption = none ∧
+    modOK envLex (str "'a\\'b'") = false := by
+  refine ⟨?_, ?_, ?_, ?_⟩
+  · have h : sqSpell (str "a\\'b") = str "'a\\'b'" := by decide
+    rw [string_modifier_stored_as_spelling, h]
+  all_goals decide +kernel
+
+/-- Values the parser never returns.  `DataType::Custom` Display still prints the modifiers
+verbatim, so a HAND-BUILT value whose modifier is not the text of one token does not come back: the
+modifier `a b` (no quotes) prints as `foo(a b)` and is read as TWO modifiers, in the generic dialect
+and every environment in which the text `a b` lexes to the two words.  Such a value is not
+`Producible`. -/
+theorem handbuilt_modifier_splits (env : Env) (gtOp : Bool)
+    (h : env.lexMod [97, 32, 98] = [.word [97] none .noKw, .word [98] none .noKw])
+    (hk : env.kwOf [102, 111, 111] = .noKw) :
+    parseDT generic 10 50 (printDT generic env gtOp (.custom [⟨[102, 111, 111], none⟩] [[97, 32, 98]])) =
+      .ok (.custom [⟨[102, 111, 111], none⟩] [[97], [98]], []) ∧
+    prod generic env (.custom [⟨[102, 111, 111], none⟩] [[97, 32, 98]]) = false := by
+  constructor
+  · simp only [printDT, pre, retok]
+    simp [h, hk, nameToks, intersperse, identTok, List.isEmpty, retokGo, run, LParen, RParen, Comma, GtT, ShrT, parseDT,
+      parseDataType, parseHelper, headOf, parseLeaf, simpleOfKw, lenOfKw, intOfKw, numOfKw, parseCustom, objName,
+      parseIdent, bqSplit, generic, consumeSym, Tok.isSym, modLoop, SqlVerif.Pratt.wordDisplay, suffixLoop, bind,
+      Except.bind, pure, Except.pure]
+  · simp [prod, modOK, h]
+
+/-- the hand-built EMPTY modifier prints as `foo()` and vanishes (the parser itself never stores an
+empty modifier for a string: `foo('')` is stored as `''`, see above) -/
+theorem handbuilt_empty_modifier_vanishes (env : Env) (gtOp : Bool) (h : env.lexMod [] = [])
+    (hk : env.kwOf [102, 111, 111] = .noKw) :
+    parseDT generic 10 50 (printDT generic env gtOp (.custom [⟨[102, 111, 111], none⟩] [[]])) =
+      .ok (.custom [⟨[102, 111, 111], none⟩] [], []) ∧
+    prod generic env (.custom [⟨[102, 111, 111], none⟩] [[]]) = false := by
+  constructor
+  · simp only [printDT, pre, retok]
+    simp [h, hk, nameToks, intersperse, identTok, List.isEmpty, retokGo, run, LParen, RParen, Comma, GtT, ShrT, parseDT,
+      parseDataType, parseHelper, headOf, parseLeaf, simpleOfKw, lenOfKw, intOfKw, numOfKw, parseCustom, objName,
+      parseIdent, bqSplit, generic, consumeSym, Tok.isSym, modLoop, suffixLoop, bind,
+      Except.bind, pure, Except.pure]
+  · simp [prod, modOK, h]
+
+-- the DateTime64 zone is printed between quotes WITHOUT escaping (data_type.rs 616-631)
+/-- `format_clickhouse_datetime_precision_and_timezone`: `'{time_zone}'` -/
+def zoneText (z : W) : W := [39] ++ z ++ [39]
 
 /-- DEFECT 5: a DateTime64 time zone containing a quote (`DateTime64(3, 'a''b')` gives zone `a'b`):
 printed as `'a'b'`, the lexer (tokenizer model of C09) reads the zone `a` and is left with `b')`,
